@@ -229,4 +229,99 @@ theorem C07_alpha_labels_neg :
     ¬ [s "aba", s "abb", s "aba"].Nodup := by
   refine ⟨by decide +kernel, by decide +kernel, by decide +kernel, by decide⟩
 
+/-! ### missing required fields -/
+
+/-- **The answer does not depend on the fuel.** `eval` is bounded by a fuel parameter (the
+nesting depth of the template); two runs that do not run out of fuel give the same result, and
+more fuel never changes a result. -/
+theorem C07_fuel_irrelevant (ctx : Ctx) (t : T) (n m : Nat) :
+    (eval n ctx t ≠ .error .outOfFuel → eval m ctx t ≠ .error .outOfFuel → eval n ctx t = eval m ctx t) ∧
+    (eval n ctx t ≠ .error .outOfFuel → n ≤ m → eval m ctx t = eval n ctx t) :=
+  ⟨eval_fuel_agree, fun h hm => eval_mono rfl h m hm⟩
+
+/-- **`optional` never propagates a missing field** (it yields the empty text instead). -/
+theorem C07_optional_never_missing (fuel : Nat) (ctx : Ctx) (cs : List T) (f : Str) :
+    eval fuel ctx (.optional cs) ≠ .error (.missing f) :=
+  eval_optional_not_missing fuel ctx cs f
+
+/-- **Missing field, evaluator level (soundness).** If the evaluation of a template fails with
+`FieldIsMissing(f)` then `f` is the name of a `field` or `names` node that is outside every
+`optional` — a node of the template itself or of a name template of the entry's persons — and
+the lookup that node performs finds nothing: for `field`, `_find_field` fails along the whole
+cross-reference chain (characterised by `C14_missing_iff`); for `names`, the entry itself has
+no persons in that role (cross-references are not followed).  Consequently a template all of
+whose required lookups succeed never fails with a missing field. -/
+theorem C07_missing_required_eval (fuel : Nat) (ctx : Ctx) (t : T) :
+    (∀ f, eval fuel ctx t = .error (.missing f) →
+      ∃ lk ∈ allRequired ctx t, lk.name = f ∧ lookupFails ctx lk = true) ∧
+    ((∀ lk ∈ allRequired ctx t, lookupFails ctx lk = false) → ∀ f, eval fuel ctx t ≠ .error (.missing f)) := by
+  have hs : ∀ f, eval fuel ctx t = .error (.missing f) →
+      ∃ lk ∈ allRequired ctx t, lk.name = f ∧ lookupFails ctx lk = true := by
+    intro f h
+    obtain ⟨lk, h1, h2, h3⟩ := (eval_missing_sound ctx fuel).1 t f h
+    exact ⟨lk, by simpa [allRequired] using h3, h1, h2⟩
+  refine ⟨hs, ?_⟩
+  intro hall f h
+  obtain ⟨lk, hm, -, hf⟩ := hs f h
+  rw [hall lk hm] at hf; cases hf
+
+/-- **Missing field, evaluator level (exact).** For some fuel the evaluation fails with
+`FieldIsMissing(f)` if and only if `Missing ctx t f`: going through the template left to right —
+all children of a node, the alternatives of a `first_of` only until one is non-empty, never into
+a failing `optional` — the first node that fails is a `field`/`names` node named `f` whose lookup
+finds nothing.  (By `C07_fuel_irrelevant` every sufficient fuel then gives this answer.) -/
+theorem C07_missing_iff (ctx : Ctx) (t : T) (f : Str) :
+    (∃ fuel, eval fuel ctx t = .error (.missing f)) ↔ Missing ctx (.node t) f :=
+  ⟨fun ⟨fuel, h⟩ => (missing_of_failsWith ctx fuel).1 t f h, fun h => failsWith_of_missing h⟩
+
+/-- **Missing required field, pipeline.** When `format_bibliography` fails with
+`FieldIsMissing: missing f in key`, then `key` is the key of one of the resolved entries, every
+entry before it in formatting order was formatted without error, the evaluation of that entry's
+template failed with `FieldIsMissing(f)`, and `f` names a `field`/`names` node outside every
+`optional` whose lookup finds nothing for this entry. -/
+theorem C07_missing_required (es : List PEntry) (items : Str → Option Item) (cites : List Str) (mc : Int)
+    (sorting : Sorting) (labels : Labels) (rep : List Report) (f key : Str)
+    (h : formatBibliography es items cites mc sorting labels = (rep, .error (.missingField f key))) :
+    ∃ pre e post it, sortEntries sorting (resolvedEntries es cites mc) = pre ++ e :: post ∧
+      e ∈ resolvedEntries es cites mc ∧ e.key = key ∧ items e.key = some it ∧
+      eval evalFuel (ctxOf es e it) it.template = .error (.missing f) ∧
+      Missing (ctxOf es e it) (.node it.template) f ∧
+      (∃ lk ∈ allRequired (ctxOf es e it) it.template, lk.name = f ∧ lookupFails (ctxOf es e it) lk = true) ∧
+      ∀ p ∈ pre, ∃ it r, items p.key = some it ∧ eval evalFuel (ctxOf es p it) it.template = .ok r := by
+  rw [formatBibliography_eq] at h
+  split at h
+  · simp only [Prod.mk.injEq] at h; cases h.2
+  · rename_i ls hls
+    simp only [Prod.mk.injEq] at h
+    have hlen := formatLabels_length hls
+    obtain ⟨pre, label, e, post, it, hl, hk, hi, he, hpre⟩ := formatEntries_missing _ _ _ _ _ h.2
+    have hsnd : sortEntries sorting (resolvedEntries es cites mc) = pre.map Prod.snd ++ e :: post.map Prod.snd := by
+      have := congrArg (List.map Prod.snd) hl
+      rw [List.map_snd_zip (by omega)] at this
+      simpa using this
+    have hmem : e ∈ resolvedEntries es cites mc := by
+      have hin : e ∈ sortEntries sorting (resolvedEntries es cites mc) := by rw [hsnd]; simp
+      cases sorting with
+      | none => exact hin
+      | authorYearTitle => exact (sortBy_perm _ _).mem_iff.1 hin
+    refine ⟨pre.map Prod.snd, e, post.map Prod.snd, it, hsnd, hmem, hk, hi, he,
+      (C07_missing_iff _ _ _).1 ⟨_, he⟩, (C07_missing_required_eval _ _ _).1 f he, ?_⟩
+    intro p hp
+    obtain ⟨q, hq, rfl⟩ := List.mem_map.1 hp
+    exact hpre q hq
+
+theorem C07_missing_required_nonvacuous :
+    -- `nj` has no journal (required by the third sentence): reported; a missing optional year/note is not
+    view (formatBibliography
+        [art "b" "Zed" "1999" "T",
+         { key := s "nj", type := s "article", fields := CIDict.ofPairs [(s "title", s "T")],
+           persons := CIDict.ofPairs [(s "author", [{ last := [s "Zed"] }])] }]
+        (fun _ => some (item "Zed")) [s "b", s "nj"] 2 .none .number) = .inl (.missingField (s "journal") (s "nj")) ∧
+    view (formatBibliography
+        [{ key := s "ny", type := s "article", fields := CIDict.ofPairs [(s "title", s "T"), (s "journal", s "J")],
+           persons := CIDict.ofPairs [(s "author", [{ last := [s "Zed"] }])] }]
+        (fun _ => some (item "Zed")) [s "ny"] 2 .none .number) = .inr [(s "ny", s "1", s "Zed.<newblock>T.<newblock>J.")] ∧
+    requiredNodes tmpl = [.names (s "author"), .field (s "title"), .field (s "journal")] := by
+  decide +kernel
+
 end Pybtex.Props
